@@ -88,6 +88,12 @@ def gen_history(rng):
                 hard.setdefault(names[i], []).append(names[j])
             elif rnd < 0.25:
                 soft.setdefault(names[i], []).append(names[j])
+    # a dependency may be listed as hard and as soft by the same task (hard
+    # is what counts)
+    for name, deps in list(hard.items()):
+        for dep in deps:
+            if rng.random() < 0.12:
+                soft.setdefault(name, []).append(dep)
     nruns = rng.randint(2, 6)
     born = {n: (0 if rng.random() < 0.8 else rng.randint(1, nruns - 1))
             for n in names}
